@@ -221,6 +221,10 @@ def gen_cases(ctx):
     rc, a2, _ = ctx.run_ext("c20", ["XD " + h for h in h1])
     for z, x, y in zip(zs, h1, a2):
         cases.append("EIR %d %s %s" % (z, x, y.split()[1]))
+    # the same conversions from 8 goroutines at once (testing in support: no Gallina model has shared mutable
+    # buffers; the theorem says the conversion is a function of its argument, this asks the code the same)
+    for k in range(6 if quick else 60):
+        cases.append("DBC %d %d" % (4000, rng.getrandbits(60)))
     return cases
 
 
@@ -346,6 +350,9 @@ def monitors(cases, t):
                         other = u2 if u == u1 else u1
                         if not (o[1] == "1" and unhx(o[2]) == b"usr" + canon(other)):
                             fails.append(("p2p-for-user", c, "participant %d is not shown the other's id" % u))
+        elif k == "DBC":
+            if o[1] != "ok":
+                fails.append(("db-form-concurrent", c, "EncodeInt64(DecodeUid(u)) != u for u=%s when 8 goroutines convert at the same time (the uid generator is one value shared by every topic and session goroutine)" % o[-1]))
         elif k == "DBR":
             if o[2] != w[1]:
                 fails.append(("uid-db-roundtrip", c, "EncodeInt64(DecodeUid(u)) != u"))
